@@ -319,7 +319,7 @@ Qed.
 
 (* the su / ub tails never raise *)
 Lemma tail_outcome (ub su : bool) h (Q : heap -> Prop) errs :
-  WF h -> outcome (hbind (if su then suppress_unifurcations h else HOk h) (ub_tail ub)) WF Q errs.
+  WF h -> outcome (hbind (if su then suppress_unifurcations h else HOk h) (ub_tail_su ub su)) WF Q errs.
 Proof.
   intros [t W]. destruct (tail_wf ub su h t W) as [h' [E [W' _]]]. simpl hbind in E.
   left. exists h'. split; [exact E|eexists; exact W'].
